@@ -5,6 +5,7 @@ package main
 
 import (
 	"fmt"
+	"strings"
 	"io"
 	"net"
 	"sync"
@@ -280,6 +281,43 @@ func init() {
 		}
 		var served server.Channels
 		var err error
+		if strings.HasPrefix(kind, "cfg-") {
+			// the server object comes from configuration text (what YAML files, --server and the SERVER variable all go through), the
+			// allow-list under its documented key
+			text := map[string]string{"cfg-socket": "tcp://127.0.0.1:0", "cfg-packet": "udp://127.0.0.1:0", "cfg-dns": "dns+udp://127.0.0.1:0", "cfg-stdio": "stdio://"}[kind]
+			var items []string
+			for _, n := range allowArg {
+				items = append(items, jsonStr(n))
+			}
+			doc := fmt.Sprintf(`[{"address": %s, "domain": "example.org", "channels": [%s]}]`, jsonStr(text), strings.Join(items, ","))
+			var ss server.Servers
+			if err := ss.UnmarshalJSON([]byte(doc)); err != nil || len(ss) != 1 || ss[0] == nil {
+				return []Tok{TW("config-err")}
+			}
+			if io2, ok := ss[0].(*server.IoServer); ok {
+				pr, pw := ioPipePair()
+				io2.Input, io2.Output = pr, pw
+			}
+			if err := ss[0].Startup(table); err != nil {
+				return []Tok{TW("abort")}
+			}
+			switch v := ss[0].(type) {
+			case *server.SocketServer:
+				served = v.VerifUpstreams()
+			case *server.PacketServer:
+				served = v.VerifUpstreams()
+			case *server.DnsServer:
+				served = v.VerifUpstreams()
+			case *server.IoServer:
+				served = v.VerifUpstreams()
+			}
+			func() { defer func() { recover() }(); ss[0].Shutdown() }()
+			out := []Tok{TW("started"), TIn(len(served))}
+			for _, c := range served {
+				out = append(out, TIn(c.(*recChannel).tag))
+			}
+			return out
+		}
 		switch kind {
 		case "socket":
 			s := server.NewSocketServer()
